@@ -30,7 +30,151 @@ def gen_cfg(rng, mode):
     d["cls"] = rng.choice([0, 0, 0, 1, 2])
     if rng.random() < 0.35:
         d["fallback"] = 1
+    return dims(rng, d)
+
+
+def dims(rng, d):
+    """dimensions of the way the breaker is built and operated (harness/src/mw_circuit.rs):
+    `listen=0` — no event listener at all is registered (30 %): the log has no `transition` lines, the breaker is observed
+    through results, probes and inner calls only;
+    `early=k` (with a fallback, 50 %) — bit 0: manual overrides and probes go through a clone of the plain breaker taken BEFORE
+    `with_fallback` (an operator's / health check's handle); bit 1: the fallback is attached when the first request arrives,
+    overrides issued before that act on the plain breaker"""
+    if rng.random() < 0.3:
+        d["listen"] = 0
+    if d.get("fallback") and rng.random() < 0.5:
+        d["early"] = rng.choice([1, 2, 3])
     return d
+
+
+def early_overrides(rng, case):
+    """with `early` bit 1 the fallback is attached at the first arrival: now and then the operator acts before that"""
+    k = kvs(case["header"])
+    if int(k.get("early", "0")) & 2 and rng.random() < 0.4:
+        pre = [rng.choice(["manual force_open", "manual force_open", "manual force_open", "manual reset", "manual force_closed"])]
+        if rng.random() < 0.5:
+            pre.append("probe views")
+        case["ops"] = pre + case["ops"]
+    return case
+
+
+# ----------------------------------------------------------------------------- tick = 1 us
+#
+# The breaker is timed by std::time::Instant alone, with nanosecond resolution; the model is unit-free (whole ticks). In
+# `tick=us` cases one tick is 1 us: wait / wdur / slow are microseconds that need not be whole milliseconds. Scripted latencies
+# (`inner=L:`, `fb=L:`) stay in MILLISECONDS — they are tokio timers, which fire at the first millisecond boundary
+# >= start + L ms (`TR.Circuit.due`); latency 0 completes in the poll that starts it.
+
+US_OFF = [0, 1, 500, 900, 999, -1, -100]
+
+
+def ceil_ms(t):
+    return -(-t // 1000) * 1000
+
+
+def scale_us(rng, case):
+    """a case generated in milliseconds, replayed on the microsecond grid: configured durations become n*1000 + an offset that
+    is (mostly) not a whole millisecond, advances n*1000 + jitter; advances aimed at the wait keep aiming at it (+-1 us)"""
+    k = kvs(case["header"])
+    if k.get("tick") == "us":
+        return case
+    new = {}
+    for key in ("wait", "wdur", "slow"):
+        if key in k and k[key] != "max":
+            new[key] = max(1, int(k[key]) * 1000 + rng.choice(US_OFF))
+    words = case["header"].split()
+    hdr = [w if w.split("=")[0] not in new else "%s=%d" % (w.split("=")[0], new[w.split("=")[0]]) for w in words]
+    hdr.append("tick=us")
+    aims = {}
+    for key in ("wait", "wdur"):
+        if key in new:
+            aims[int(k[key])] = new[key]
+    ops = []
+    for o in case["ops"]:
+        w = o.split()
+        if w[0] == "adv":
+            n = int(w[1])
+            r = rng.random()
+            if n in aims and r < 0.7:
+                m = aims[n] + rng.choice([-1, 0, 0, 1])
+            elif n + 1 in aims and r < 0.5:
+                m = aims[n + 1] - 1
+            elif n - 1 in aims and r < 0.5:
+                m = aims[n - 1] + 1
+            else:
+                m = n * 1000 + (0 if r < 0.6 else rng.choice([1, 100, 900, 999, rng.randint(0, 999)]))
+            ops.append("adv %d" % max(0, m))
+        else:
+            ops.append(o)
+    return dict(case, header=" ".join(hdr), ops=ops)
+
+
+def gen_us(rng, tier):
+    """sequential histories on the microsecond grid: waits, window durations and slow-call thresholds that are not whole
+    milliseconds (below 1 ms, n ms + 900 us, …); calls arriving wait-1 / wait / wait+1 us after the opening and at the whole
+    millisecond below the wait; calls lasting threshold-1 / threshold / threshold+1 us and the whole millisecond below the
+    threshold; records aged wdur-1 / wdur / wdur+1; first polls that come late"""
+    d = gen_cfg(rng, "seq")
+    d["tick"] = "us"
+    d["size"] = rng.choice([1, 2, 2, 3, 4])
+    if "min" in d:
+        d["min"] = rng.choice([1, d["size"]])
+    W = d["wait"] = rng.choice([900, 999, 1, 1500, 20900, 10001, 2000, 12345, 100999, 3000])
+    if d.get("wtype") == "time":
+        d["wdur"] = rng.choice([900, 2500, 50001, 100000, 30999, 5000])
+    S = None
+    if "slow" in d or rng.random() < 0.3:
+        S = d["slow"] = rng.choice([900, 1500, 20900, 5001, 3000, 2999, 1])
+        d.setdefault("sr", rng.choice(FRACS))
+    wd = d.get("wdur")
+    ops = []
+    c = 0
+    now = 0
+    pfail = rng.choice([0.1, 0.3, 0.5, 0.7, 0.9])
+    late_p = rng.choice([0, 0, 0.3, 0.8])
+    durs = [1000, 1001, 1999, 2000, 3500]
+    if S:
+        durs += [S - 1, S, S, S + 1, S // 1000 * 1000, S // 1000 * 1000 + 1, S + 1000]
+    advs = [W - 1, W, W, W + 1, W // 1000 * 1000, W // 1000 * 1000 + 1, 1, 1, 500, 1000]
+    if wd:
+        advs += [wd - 1, wd, wd + 1, wd // 1000 * 1000]
+    for i in range(rng.randint(10, 45)):
+        r = rng.random()
+        if r < 0.62:
+            c += 1
+            o = outcome(rng, pfail)
+            tag = " tag=%d" % rng.randint(0, 9) if d["cls"] == 2 else ""
+            late = []
+            if rng.random() < late_p:
+                # the future returned by `call()` is not polled right away: the inner call starts at the first poll
+                x = max(0, rng.choice([S or 7, (S or 7) + 1, (S or 7) - 1, 1, W, 2 * (S or 7)]))
+                late = ["adv %d" % x]
+                now += x
+            D = max(0, rng.choice(durs)) if rng.random() < 0.5 else 0
+            L = D // 1000
+            while L > 1 and ceil_ms(now + L * 1000) - now > D:
+                L -= 1
+            if L == 0:
+                ops += ["arrive %d inner=0:%s%s" % (c, o, tag)] + late + ["poll %d" % c]
+            else:
+                D = max(D, ceil_ms(now + L * 1000) - now)
+                ops += ["arrive %d inner=%d:%s%s" % (c, L, o, tag)] + late + ["poll %d" % c, "adv %d" % D, "poll %d" % c]
+                now += D
+        elif r < 0.84:
+            x = max(0, rng.choice(advs))
+            ops.append("adv %d" % x)
+            now += x
+        elif r < 0.90:
+            ops.append("manual force_open")
+        elif r < 0.93:
+            ops.append("manual force_closed")
+        elif r < 0.96:
+            ops.append("manual reset")
+        else:
+            pfail = rng.choice([0.0, 0.2, 0.5, 0.8, 1.0])
+        ops.append("probe views")
+    check_f64(d, c)
+    return {"header": header(d), "ops": ops}
 
 
 def header(d):
@@ -172,6 +316,8 @@ def gen_boundary(rng, tier):
         if rng.random() < 0.4:
             d["slow"], d["sr"] = S, other
     d["cls"] = 0
+    if rng.random() < 0.3:
+        d["listen"] = 0
     variant = rng.choice(["at", "at", "below", "above", "slide", "slide"])
     m = {"at": k, "below": k - 1, "above": min(n, k + 1), "slide": k - 1}[variant]
     m = max(0, m)
@@ -228,6 +374,7 @@ def gen_seq(rng, tier):
     n = rng.randint(10, 60) if rng.random() < 0.85 else rng.randint(100, 300)
     pfail = rng.choice([0.1, 0.3, 0.5, 0.7, 0.9])
     slow = d.get("slow")
+    late_p = rng.choice([0, 0, 0.3, 0.8])
     for i in range(n):
         r = rng.random()
         if r < 0.70:
@@ -235,11 +382,20 @@ def gen_seq(rng, tier):
             o = outcome(rng, pfail)
             tag = " tag=%d" % rng.randint(0, 9) if d["cls"] == 2 else ""
             tag += fbscript(rng, d, 0.25)     # if rejected: a fallback that may stay pending across the later operations
+            late = []
+            if rng.random() < late_p:
+                # the caller holds the future returned by `call()` for a while before it polls it (a batch built first and
+                # driven later, a select! arm not reached yet): the inner call starts — and the call's duration begins —
+                # at the first poll; the time the future sat un-polled is not call duration
+                s0 = slow or 7
+                late = ["adv %d" % rng.choice([s0, s0, s0 + 1, s0 - 1, 2 * s0, 1, _w(d)])]
+                if rng.random() < 0.2:
+                    late.append("probe views")
             if slow and rng.random() < 0.4:
                 lat = rng.choice([slow - 1, slow, slow + 1, slow * 2])
-                ops += ["arrive %d inner=%d:%s%s" % (c, lat, o, tag), "poll %d" % c, "adv %d" % lat, "poll %d" % c]
+                ops += ["arrive %d inner=%d:%s%s" % (c, lat, o, tag)] + late + ["poll %d" % c, "adv %d" % lat, "poll %d" % c]
             else:
-                ops += ["arrive %d inner=0:%s%s" % (c, o, tag), "poll %d" % c]
+                ops += ["arrive %d inner=0:%s%s" % (c, o, tag)] + late + ["poll %d" % c]
         elif r < 0.82:
             w = _w(d)
             ops.append("adv %d" % rng.choice([w - 1, w, w, w + 1, 1, w // 2, d.get("wdur", 7), d.get("wdur", 7) + 1]))
@@ -342,6 +498,8 @@ def gen_pending_fallback(rng, tier, halfopen=False):
     force_open / force_closed / reset are issued — none of that may wait for somebody's fallback"""
     d = gen_cfg(rng, "conc")
     d["fallback"] = 1
+    if "early" not in d and rng.random() < 0.5:
+        d["early"] = rng.choice([1, 2, 3])
     if d["wait"] != "max" and rng.random() < 0.6:
         d["wait"] = rng.choice([100, 1000])
     w = _w(d)
@@ -402,12 +560,23 @@ def gen_pending_fallback(rng, tier, halfopen=False):
 def gen_c03(rng, tier):
     r = rng.random()
     if r < 0.15:
-        return gen_pending_fallback(rng, tier, halfopen=rng.random() < 0.25)
-    return gen_conc(rng, tier) if r < 0.83 else gen_seq(rng, tier)
+        case = gen_pending_fallback(rng, tier, halfopen=rng.random() < 0.25)
+    elif r < 0.27:
+        return early_overrides(rng, gen_us(rng, tier))
+    else:
+        case = gen_conc(rng, tier) if r < 0.85 else gen_seq(rng, tier)
+    if rng.random() < 0.1:
+        case = scale_us(rng, case)
+    return early_overrides(rng, case)
 
 
 def gen_c04(rng, tier):
-    return gen_boundary(rng, tier) if rng.random() < 0.25 else gen_seq(rng, tier)
+    r = rng.random()
+    if r < 0.22:
+        return gen_boundary(rng, tier)
+    if r < 0.34:
+        return early_overrides(rng, gen_us(rng, tier))
+    return early_overrides(rng, gen_seq(rng, tier))
 
 
 def gen_stale_trial(rng, tier):
@@ -549,12 +718,16 @@ def gen_episodes(rng, tier):
 def gen_c09(rng, tier):
     r = rng.random()
     if r < 0.1:
-        return gen_stale_trial(rng, tier)
-    if r < 0.3:
-        return gen_episodes(rng, tier)
-    if r < 0.36:
-        return gen_pending_fallback(rng, tier, halfopen=True)
-    return gen_conc(rng, tier, halfopen_bias=True) if r < 0.88 else gen_conc(rng, tier)
+        case = gen_stale_trial(rng, tier)
+    elif r < 0.3:
+        case = gen_episodes(rng, tier)
+    elif r < 0.36:
+        case = gen_pending_fallback(rng, tier, halfopen=True)
+    else:
+        case = gen_conc(rng, tier, halfopen_bias=True) if r < 0.88 else gen_conc(rng, tier)
+    if rng.random() < 0.1:
+        case = scale_us(rng, case)
+    return early_overrides(rng, case)
 
 
 # ----------------------------------------------------------------------------- monitors
@@ -599,6 +772,40 @@ def mon_c03(case, lines, meta):
                     return "line %d: left the open state at t=%d, opened at t=%d, wait=%d, without a manual override" % (i, t, t_open, wait)
             t_open = t if w[2] == "open" else None
         prev = w
+    return _c03_unheard(lines, wait)
+
+
+def _c03_unheard(lines, wait):
+    """the same clause without listening to the breaker's events: a breaker known to be closed (a new one, or after
+    force_closed() / reset(), as long as no outcome has been recorded since) that is forced open at t0 is open from exactly t0:
+    until t0 + wait no call may reach the wrapped service unless an override closes it first. Outcomes recorded by an open breaker
+    (calls admitted before it opened) change nothing."""
+    known = "closed"
+    t0 = 0
+    for i, l in enumerate(lines):
+        t, w = tparse(l)
+        if not w:
+            continue
+        if w[0] == "manual":
+            if w[1] == "force_open":
+                if known == "closed":
+                    known, t0 = "open", t
+                elif known != "open":
+                    known = None
+            elif w[1] in ("force_closed", "reset"):
+                known = "closed"
+            else:
+                known = None
+        elif w[0] == "inner_done" and known == "closed" and w[3] != "panic":
+            known = None
+        elif w[0] == "inner_call" and known == "open":
+            if t - t0 < wait:
+                return ("line %d: inner call %s started at t=%d, but the breaker was forced open at t=%d (it was closed until then) and "
+                        "wait_duration_in_open=%d has not elapsed; no override in between" % (i, w[1], t, t0, wait))
+            known = None
+        elif w[0] == "probe" and known == "open" and t - t0 < wait:
+            if "sync=open" not in l or "state=open" not in l:
+                return "line %d: forced open at t=%d (wait %d), views at t=%d disagree: %s" % (i, t0, wait, t, l)
     return None
 
 
@@ -830,6 +1037,41 @@ def mon_c09(case, lines, meta):
             if w[0] == "inner_drop" and in_half and w[2] in older:
                 hint = "; the last call cancelled before that (caller %s, serial %s at t=%d) had been admitted before this episode began and held none of its slots" % (w[1], w[2], t)
             older.discard(w[2])
+    return _c09_unheard(lines, permitted)
+
+
+def _c09_unheard(lines, permitted):
+    """the same clause without listening to the breaker's events (a breaker built without any listener logs no transition):
+    after `force_open()` — or a `state()` probe answering open — the breaker stays open until a call is admitted (whatever
+    completes meanwhile is recorded by an open breaker and changes nothing); the first call admitted after that begins a
+    half-open episode, and as long as no call has completed and no override was issued the episode cannot have been
+    decided: the calls admitted since, minus those cancelled, are trials of that one episode"""
+    phase = None            # None: unknown; "open"; "half"
+    trials = set()
+    t0 = 0
+    for i, l in enumerate(lines):
+        t, w = tparse(l)
+        if not w:
+            continue
+        if w[0] == "manual":
+            phase, trials = ("open" if w[1] == "force_open" else None), set()
+            t0 = t
+        elif w[0] == "probe" and phase is None and "state=open" in l:
+            phase, trials, t0 = "open", set(), t
+        elif w[0] == "inner_call" and phase is not None:
+            phase = "half"
+            trials.add(w[2])
+            if len(trials) > max(permitted, 1):
+                return ("line %d: %d calls admitted since the breaker was seen open at t=%d are inside the wrapped service together, none of them "
+                        "cancelled, no call completed and no override issued since the first of them was admitted: %d trial calls in one "
+                        "half-open episode (permitted_calls_in_half_open=%d)" % (i, len(trials), t0, len(trials), permitted))
+        elif w[0] == "inner_drop":
+            trials.discard(w[2])
+        elif w[0] == "inner_done":
+            if w[3] == "panic":
+                trials.discard(w[2])
+            elif phase == "half":
+                phase, trials = None, set()
     return None
 
 
